@@ -439,6 +439,36 @@ def run(ctx):
 
     check_snapshots(ctx, ms)
 
+    # ---------------- R7 no structure is modified while it is being iterated
+    ctx.rule('C18.R7', 'no list or dict of the monitor is structurally modified (remove/pop/insert/append/del) inside a for loop that iterates over that very object: elements are skipped (or the iteration fails), so stale shadow entries survive. Iterating a copy (list(x), x[:], a comprehension) or <DictProxy>.keys() (a list, by the recorded assumption) is fine')
+    n_it = 0
+    SMUT = {'remove', 'pop', 'insert', 'append', 'extend', 'clear', 'popitem', 'update', 'add', 'discard', 'setdefault'}
+    for name, fn in sorted(ms.items()):
+        for lp in [x for x in walk_local(fn) if isinstance(x, ast.For)]:
+            it = lp.iter
+            base = None
+            if isinstance(it, (ast.Name, ast.Attribute)):
+                base = U(it)
+            elif isinstance(it, ast.Call) and isinstance(it.func, ast.Attribute) and it.func.attr in ('values', 'items'):
+                base = U(it.func.value)
+            elif isinstance(it, ast.Call) and isinstance(it.func, ast.Attribute) and it.func.attr == 'keys' and struct_of(it.func.value) != 'policy_store':
+                base = U(it.func.value)
+            if base is None:
+                continue
+            n_it += 1
+            hits = []
+            for st in lp.body:
+                for x in ast.walk(st):
+                    if isinstance(x, ast.Call) and isinstance(x.func, ast.Attribute) and x.func.attr in SMUT and U(x.func.value) == base:
+                        hits.append((x.lineno, U(x)[:50]))
+                    if isinstance(x, ast.Delete) and any(isinstance(tg, ast.Subscript) and U(tg.value) == base for tg in x.targets):
+                        hits.append((x.lineno, 'del %s[...]' % base))
+                    if isinstance(x, ast.Subscript) and isinstance(x.ctx, ast.Store) and U(x.value) == base and isinstance(it, ast.Call) and it.func.attr in ('keys', 'items', 'values'):
+                        hits.append((x.lineno, 'item store on %s' % base))
+            site = '%s:%s PolicyDirectoryMonitor.%s' % (MONITOR, lp.lineno, name)
+            ctx.check(not hits, 'C18.R7', 'PolicyDirectoryMonitor.%s|modifies %s while iterating it' % (name, base), site, 'the iterated object %s is not modified in the loop body' % base,
+                      'the loop iterates over %s and its body modifies the same object (%s): the element after each removed one is skipped, so entries that should go stay behind' % (base, hits[:3]))
+    ctx.count('direct_iterations_in_monitor', n_it, 2)
     # ---------------- R4 pairing
     scan = ms['scan_policies']
     for name, fn in ms.items():
